@@ -6,7 +6,8 @@ from __future__ import annotations
 
 EXTENSIONS = ["colon_fence", "substitution", "deflist", "tasklist"]
 
-WORDS = ["alpha", "beta", "gamma", "delta", "x", "lorem", "ipsum", "wörter", "naïve", "a1", "end."]
+WORDS = ["alpha", "beta", "gamma", "delta", "x", "lorem", "ipsum", "wörter", "naïve", "a1", "end.",
+         "form\x0cfeed", "ls\u2028ps"]      # str.splitlines separators that are not newlines
 ADMONITIONS = ["note", "warning", "tip", "important", "hint", "caution", "danger", "error", "attention"]
 
 
